@@ -179,6 +179,8 @@ func runSCIONServer(ctx context.Context, log *slog.Logger, mtrcs *scionServerMet
 				log.LogAttrs(ctx, slog.LevelInfo, "failed to reverse path", slog.Any("error", err))
 				continue
 			}
+			// reversing may yield a path of another type (one-hop -> SCION)
+			scionLayer.PathType = scionLayer.Path.Type()
 			scionLayer.NextHdr = slayers.L4SCMP
 
 			err = buffer.Clear()
@@ -471,6 +473,8 @@ func runSCIONServer(ctx context.Context, log *slog.Logger, mtrcs *scionServerMet
 				updateTXTimestamp(clientID, rxt, &txt0) // no reply: drop the exchange
 				continue
 			}
+			// reversing may yield a path of another type (one-hop -> SCION)
+			scionLayer.PathType = scionLayer.Path.Type()
 			scionLayer.NextHdr = slayers.L4UDP
 
 			udpLayer.DstPort, udpLayer.SrcPort = udpLayer.SrcPort, udpLayer.DstPort
